@@ -1,5 +1,5 @@
 """Property -> rule instances (DESIGN section 4). Each entry is a function facts -> [RuleResult]."""
-from . import dim, atomic, tag, pair, canon, deleg, guard, table, wire, flow, sibling, algo_rules
+from . import dim, atomic, tag, pair, canon, deleg, guard, table, wire, flow, sibling, algo_rules, rules5
 
 ALGO_FILES = {
     "C09": ("src/algo/mod.rs",),
@@ -260,17 +260,17 @@ PROPS["C10"]["decides"] += "; dijkstra relaxes only from an unsettled popped nod
                            "order, reversed, NaN last, with eq/partial_cmp defined through cmp"
 PROPS["C12"]["rules"] += [sub(_visit, fn_has("min_spanning_tree"), 4), sub(_scored, fn_has("MinScored"), 3)]
 PROPS["C12"]["decides"] += "; Kruskal emits an edge only under union()==true, Prim only under !nodes_taken.contains(target); MinScored table"
-PROPS["C01"]["rules"] += [sub(_unchk, fn_has("graph_impl::index_twice", "graph_impl::Graph::index_twice_mut"), 6),
+PROPS["C01"]["rules"] += [sub(_unchk, fn_has("graph_impl::index_twice", "graph_impl::Graph::index_twice_mut"), 4),
                           sub(_limit, fn_has("graph_impl::Graph::"), 8)]
 PROPS["C01"]["decides"] += "; unchecked access: index_twice's raw offsets dominated by max(a,b)<len and a!=b, index_twice_mut's raw reborrows by its " \
                            "distinctness assertion; index-type limit: a slot is pushed only after `max()==!0 || end()!=new_index` with new_index from the vector's length"
-PROPS["C02"]["rules"] += [sub(_unchk, fn_has("StableGraph::index_twice_mut", "graph_impl::index_twice"), 6), sub(_limit, fn_has("StableGraph"), 4)]
+PROPS["C02"]["rules"] += [sub(_unchk, fn_has("StableGraph::index_twice_mut", "graph_impl::index_twice"), 4), sub(_limit, fn_has("StableGraph"), 4)]
 PROPS["C02"]["decides"] += "; unchecked access and index-type limit as for Graph"
 PROPS["C04"]["rules"] += [sub(_unchk, fn_has("matrix_graph::"), 2), sub(_limit, fn_has("matrix_graph::"), 4)]
 PROPS["C04"]["decides"] += "; swap_nonoverlapping dominated by pos+n<=new_pos; try_add_node's id allocation behind the index-type limit test"
 PROPS["C05"]["rules"].append(sub(_sibl, lambda f, s: True, 1))
 PROPS["C05"]["decides"] += "; every successor pushed into an adj::List row is dominated by target.index() < node count"
-PROPS["C19"]["rules"].append(sub(_unchk, fn_has("unionfind::"), 12))
+PROPS["C19"]["rules"].append(sub(_unchk, fn_has("unionfind::"), 8))
 PROPS["C19"]["decides"] += "; every get_unchecked*/find_mut_recursive use is dominated by x.index() < len (or indexed by the loop variable of 0..len); " \
                            "the unchecked helpers stay private unsafe fns"
 PROPS["C03"]["rules"].append(sub(_dirs, lambda f, s: True, 4))
@@ -405,6 +405,34 @@ _R4 = [
 for _pids, _fn, _floor, _txt in _R4:
     for _pid in _pids:
         PROPS[_pid]["rules"].append(sub(_cached("algo." + _fn.__name__, _fn), lambda f, s: True, _floor))
+        if _pid != "C07":
+            PROPS[_pid]["decides"] += "; " + _txt
+
+# ---- round 5 (rules5): (properties, rule, floor-or-{pid: floor}, per-property site predicate or None, text)
+_nas = lambda pid: {"C01": lambda f, s: "graph_impl::" in f and "stable_graph" not in f, "C02": lambda f, s: "stable_graph" in f,
+                    "C04": lambda f, s: "matrix_graph::" in f, "C05": lambda f, s: "csr::" in f or "adj::" in f,
+                    "C06": lambda f, s: "visit::filter" in f}[pid]
+_R5 = [
+    (("C19",), rules5.rank_increment, 2, None, "try_union increments a rank only when the two ranks compared Equal"),
+    (("C20", "C07"), rules5.simple_paths_min, 3, None, "all_simple_paths yields only under visited.len() >= min_length"),
+    (("C16",), rules5.dominators_root, 2, None, "Dominators reads idom values only under node != root (the root's self entry is never exposed)"),
+    (("C10", "C07"), rules5.close_only_popped, 2, None, "dijkstra closes only the node popped from the heap"),
+    (("C15", "C07"), rules5.visitor_then_mark, 3, None, "non_backtracking_dfs always traverses (marks) the node it handed to the visitor"),
+    (("C01", "C02", "C04", "C05", "C06"), rules5.none_after_some, {"C01": 3, "C02": 3, "C04": 3, "C05": 2, "C06": 3}, _nas,
+     "an enumeration iterator never ends right after taking an element from its underlying source"),
+    (("C01", "C02"), rules5.dir_param_index, {"C01": 8, "C02": 2},
+     lambda pid: (lambda f, s: "stable_graph" not in f) if pid == "C01" else (lambda f, s: "stable_graph" in f),
+     "direction-parametrised accessors index next[]/node[] only by their own direction's k"),
+    (("C06",), rules5.filter_flag, 6, None, "NodeFiltered's include_source is exactly include_node(queried node)"),
+    (("C03",), rules5.graphmap_incoming_mirror, 1, None, "no GraphMap method pushes an Incoming adjacency entry without a != b"),
+    (("C17", "C03"), rules5.nodes_before_edges, 3, None, "GraphMap::from_graph inserts all nodes (in node order) before any edge"),
+    (("C11",), rules5.float_overflow_table, 2, None, "float overflowing_add never reports overflow for operands of opposite sign (sign table)"),
+]
+for _pids, _fn, _floor, _predf, _txt in _R5:
+    for _pid in _pids:
+        _fl = _floor[_pid] if isinstance(_floor, dict) else _floor
+        _pr = _predf(_pid) if _predf else (lambda f, s: True)
+        PROPS[_pid]["rules"].append(sub(_cached("r5." + _fn.__name__, _fn), _pr, _fl))
         if _pid != "C07":
             PROPS[_pid]["decides"] += "; " + _txt
 
